@@ -45,13 +45,23 @@ func feeOfProofs(ps cashu.Proofs, feeOf map[string]uint) uint64 {
 
 // c18MakeStore builds a mint with an inactive and an active keyset and a wallet
 // store filled with harness-minted proofs of arbitrary denominations.
-func c18MakeStore(r *core.Run, si int) (*c18Store, error) {
+type c18Spec struct {
+	feeOld, feeNew uint
+	old, act       []uint64
+}
+
+func c18MakeStore(r *core.Run, si int) (*c18Store, error) { return c18MakeStoreSpec(r, si, nil) }
+
+func c18MakeStoreSpec(r *core.Run, si int, spec *c18Spec) (*c18Store, error) {
 	rng := r.Rng(fmt.Sprintf("store%d", si))
 	dir := core.TempDir("c18t")
 	world := lnmodel.NewWorld(r.Seed*57 + int64(si))
 	world.AutoDeliver = false
 	feeOld := c18Fees[rng.Intn(len(c18Fees))]
-	feeNew := c18Fees[si%len(c18Fees)]
+	feeNew := c18Fees[(si%len(c18Fees)+len(c18Fees))%len(c18Fees)]
+	if spec != nil {
+		feeOld, feeNew = spec.feeOld, spec.feeNew
+	}
 	env, err := menv.New(world, "m0", filepath.Join(dir, "mint"), menv.Opts{FeePpk: feeOld})
 	if err != nil {
 		return nil, err
@@ -67,9 +77,13 @@ func c18MakeStore(r *core.Run, si int) (*c18Store, error) {
 	}
 	var all cashu.Proofs
 	// inactive keyset proofs (in two thirds of the stores)
-	if si%3 != 0 {
+	if si%3 != 0 || spec != nil {
 		act := env.Active()
-		ps, err := env.FundOutputs(client.Outputs(rng, act.Id, randDenoms(1+rng.Intn(6), 6)))
+		denoms := randDenoms(1+rng.Intn(6), 6)
+		if spec != nil {
+			denoms = spec.old
+		}
+		ps, err := env.FundOutputs(client.Outputs(rng, act.Id, denoms))
 		if err != nil {
 			return nil, err
 		}
@@ -81,7 +95,11 @@ func c18MakeStore(r *core.Run, si int) (*c18Store, error) {
 	act := env.Active()
 	nact := 2 + rng.Intn(14)
 	maxPow := 3 + rng.Intn(6)
-	ps, err := env.FundOutputs(client.Outputs(rng, act.Id, randDenoms(nact, maxPow)))
+	actDenoms := randDenoms(nact, maxPow)
+	if spec != nil {
+		actDenoms = spec.act
+	}
+	ps, err := env.FundOutputs(client.Outputs(rng, act.Id, actDenoms))
 	if err != nil {
 		return nil, err
 	}
@@ -154,6 +172,25 @@ func runC18(r *core.Run) {
 		}
 		r.Sample("store", map[string]any{"store": tag, "proofs": len(st.proofs), "balance": st.balance, "fees_ppk": st.feeOf, "active": st.active})
 	})
+	// directed: the store of the listed finding (greedy selection refuses a send close to the
+	// balance of a store mixing keysets), so that it is looked at whatever the seed
+	if tag := "store-directed-1"; r.Want(tag) {
+		st, err := c18MakeStoreSpec(r, -1, &c18Spec{feeOld: 500, feeNew: 100, old: []uint64{1, 16, 1}, act: []uint64{16, 8, 32}})
+		if err != nil {
+			r.Violate("setup", err.Error(), tag, nil)
+			return
+		}
+		defer os.RemoveAll(st.dir)
+		t := inproc.Install()
+		sink := &inproc.Sink{}
+		for _, amount := range []uint64{60, 70, 71, 72} {
+			for _, fees := range []bool{false, true} {
+				if sig := fmt.Sprintf("%s/amount%d/fees=%v", tag, amount, fees); r.Want(sig) {
+					c18Case(r, st, t, sink, amount, fees, sig)
+				}
+			}
+		}
+	}
 }
 
 func c18Case(r *core.Run, st *c18Store, t *inproc.Transport, sink *inproc.Sink, amount uint64, fees bool, sig string) {
@@ -199,7 +236,13 @@ func c18Case(r *core.Run, st *c18Store, t *inproc.Transport, sink *inproc.Sink, 
 	}
 	sink.Forget(sink.Len())
 	heldFee := feeOfProofs(st.proofs, st.feeOf)
-	wit := map[string]any{"store_proofs": amountsOf(st.proofs), "fees_ppk": st.feeOf, "amount": amount, "include_fees": fees, "error": fmt.Sprint(serr), "sent": amountsOf(sent)}
+	var inactiveAmts []uint64
+	for _, p := range st.proofs {
+		if p.Id != st.active {
+			inactiveAmts = append(inactiveAmts, p.Amount)
+		}
+	}
+	wit := map[string]any{"store_proofs": amountsOf(st.proofs), "of_which_inactive_keyset": inactiveAmts, "active_keyset": st.active, "fees_ppk": st.feeOf, "amount": amount, "include_fees": fees, "error": fmt.Sprint(serr), "sent": amountsOf(sent)}
 	ppkKey := fmt.Sprintf("ppk=%d", st.feeOf[st.active])
 	if serr != nil {
 		// completeness
